@@ -279,11 +279,31 @@ def build_group_scores(spec, L=None):
     return o, callers
 
 
+_UNHASHABLE = {}
+
+
+def make_unhashable(obj):
+    """Gives a callable object value semantics the way a (non-frozen) dataclass sampler has them: __eq__ defined,
+    __hash__ = None.  BootstrapConfig documents `sampling_method` as any callable; nothing says hashable."""
+    cls = type(obj)
+    if cls.__hash__ is None or not hasattr(obj, "__dict__"):
+        return obj
+    sub = _UNHASHABLE.get(cls)
+    if sub is None:
+        sub = type(cls.__name__ + "Unhashable", (cls,), {"__eq__": lambda a, b: a is b, "__hash__": None})
+        _UNHASHABLE[cls] = sub
+    obj.__class__ = sub
+    return obj
+
+
 def build_config(cfg, sampler=None):
     L = lib()
     sm = cfg.get("sampling_method", "dynamic")
     if isinstance(sm, dict):
         sm = sampler
+        # every fourth callable sampler (chosen by the configuration's content) is an unhashable object
+        if sampler is not None and type(sampler).__name__ != "function" and int(cfg.get("nb_samples", 10)) % 4 == 1:
+            make_unhashable(sampler)
     vals = (int(cfg.get("nb_samples", 10)), cfg.get("bootstrap_method", "bca"), sm, cfg.get("stratified_sampling"),
             bool(cfg.get("smoothing", False)), cfg.get("ratio"))
     # the documented field order is part of the public interface: every third configuration (chosen by its content,
